@@ -855,3 +855,9 @@ mod tests {
         .await;
     }
 }
+
+#[cfg(all(test, feature = "ipa-verif"))]
+#[allow(dead_code, unused_imports, clippy::all, clippy::pedantic)]
+mod ipa_verif_hook {
+    include!(concat!(env!("IPA_VERIF_DIR"), "/hooks/gateway.rs"));
+}
